@@ -2,7 +2,9 @@
 (* Trace validation for Encoder (C04 JSON, C05 logfmt, C06 colored).
 
    Every line of the log is one record the harness pushed through the real library:
-     rec   the abstract record (see Encoder.tla) that was concretised and logged (key ids in
+     rec   the abstract record (see Encoder.tla) that was concretised and logged (with caller the
+           record is attributed to a real call site of the worker; cfile # "plain" or a site number:
+           one behind a `//line` directive whose file name carries a character of that class; key ids in
            ReservedIds became the field names time / level / msg / logger / caller; with lc.set the
            harness called SetLevelColors(sev, fg, bg) with concrete codes of the stated classes
            right before the record and put the table back afterwards),
@@ -10,7 +12,8 @@
            decoders (encoding/json; logfmt tokenizer + strconv.Unquote; SGR scanner + layout
            parser) - structure, value identities and fidelity booleans, never raw bytes,
      probe (optional) [cls, form]: for a record that carries one special character in one
-           position, the token form in which that character was found in the output.
+           position (message, name, key, value, file name of the call site), the token form in
+           which that character was found in the output.
 
    The monitor consumes one line per step.  A record outside the input domain of its property
    is counted and skipped.  Otherwise Diag(rec, obs) - the set of clauses of the property the
@@ -41,9 +44,11 @@ NodeFeats(s) ==
 \* level colour configuration the record was formatted under
 ResFeats(rec) ==
     {"member-key:" \o x[1] \o ":" \o x[2] : x \in MemberReserved(rec.attrs, 0)}
+    \cup {"empty-group-member:" \o x[1] \o ":" \o x[2] : x \in EmptyGroupReserved(rec.attrs)}
     \cup {"top-key:" \o ResName(rec.attrs[j].k) \o ":" \o rec.attrs[j].kind :
              j \in {x \in DOMAIN rec.attrs : rec.attrs[x].k \in ReservedIds}}
     \cup (IF Has(rec, "lc") /\ rec.lc.set THEN {"colours:" \o rec.lc.fg \o "+" \o rec.lc.bg} ELSE {})
+    \cup (IF rec.caller /\ CFile(rec) # "plain" THEN {"caller:" \o CFile(rec)} ELSE {})
 Feats(rec) ==
     NodeFeats(rec.attrs) \cup ResFeats(rec)
     \cup {"msg:" \o rec.msg[j] : j \in {x \in DOMAIN rec.msg : rec.msg[x] # "plain"}}
